@@ -1,4 +1,5 @@
 import SkgVerif.Lemmas.PermInv
+import SkgVerif.Gen.Source
 /-!
 # C16 — cross-variograms use products of paired differences; the table is symmetric
 -/
@@ -51,5 +52,12 @@ theorem C16_table {β} (est : List Rat → β) (edges ds : List Rat) (cols : Lis
   · simp [crossTable]
 
 example : crossDiffs [1, 3, 6] [2, 2, 5] = [0, 15, 9] := by decide +kernel
+
+/-- `cross_variograms` as it is in the source now: double loop over the columns, the ordinary variogram of column `i` on the diagonal, columns `[i, j]` elsewhere -/
+theorem C16_source_table : Gen.crossTableSource =
+    [
+    ("loops", "i in range(N) | j in range(N)"),
+    ("branches", "any([arg in kwargs for arg in ('azimuth', 'tolerance', 'bandwidth')]) | i == j"),
+    ("entries", "BaseCls(coordinates, values[:, i], **kwargs) | BaseCls(coordinates, v, **kwargs) | v = values[:, [i, j]]")] := by rfl
 
 end Skg
